@@ -40,9 +40,8 @@ def cases(tier):
             stride = 2
         mod = importlib.import_module(f"harness.{src}")
         for k, c in enumerate(mod.cases("quick")):
-            if k % stride:
-                continue
-            if src == "C06" and c.get("fam") == "sym2":
+            forced = src == "C06" and c.get("fam") == "sym2" and "/E1-" in c["id"]  # complex operators on a combined envelope
+            if k % stride and not forced:
                 continue
             d = dict(c)
             d["id"], d["src"] = f"{src}/{c['id']}", src
